@@ -36,6 +36,7 @@ DECIDED = [
     "ID-3 (C04 PROV-2 / SIB-1) ids are stored in canonical text form: the duplicate id rule compares ids as strings",
     "WALK-2 run_validation validates the object, every Section below it and every Property of those Sections",
     "ORD-2 cardinality reports are exact over all order types (shared with C09)",
+    'DUP-2 every object_unique_names scan over Properties uses the key selector x.name',
 ]
 NOT_DECIDED = ["iff-semantics of the non-cardinality rules on arbitrary documents", "message texts"]
 
